@@ -17,6 +17,9 @@ func EncodeEnvelopWithRemoting(codec vivid.Codec, envelop vivid.Envelop) (data [
 	var writer = messages.NewWriterFromPool()
 	defer messages.ReleaseWriterToPool(writer)
 	if messageDesc.IsOutside() {
+		if codec == nil {
+			return nil, messages.ErrCodecNotConfigured
+		}
 		data, err = codec.Encode(envelop.Message())
 		if err != nil {
 			return nil, err
@@ -80,6 +83,10 @@ func DecodeEnvelopWithRemoting(codec vivid.Codec, data []byte) (
 		}
 	} else {
 		// 外部消息反序列化
+		if codec == nil {
+			err = messages.ErrCodecNotConfigured
+			return
+		}
 		messageInstance, err = codec.Decode(messageData)
 		if err != nil {
 			return
